@@ -67,6 +67,14 @@ class MultiTargetMCSU2(Gate):
         if isinstance(self.unitaries, list):
             self.definition = QuantumCircuit(self.controls, self.target)
 
+            if len(self.controls) == 1:
+                for idx, unitary in enumerate(self.unitaries):
+                    self.definition.append(
+                        UnitaryGate(unitary).control(1, ctrl_state=self.ctrl_state),
+                        [self.controls[0], self.target[idx]],
+                    )
+                return
+
             is_main_diags_real = []
             is_secondary_diags_real = []
             for unitary in self.unitaries:
